@@ -42,6 +42,8 @@ type SSHCertSpec struct {
 	CritOpts    map[string]string
 	Extensions  map[string]string
 	Serial      uint64
+	// Host makes it a host certificate (the kind is no input of anything the properties state)
+	Host bool
 }
 
 // MakeSSHCert signs an SSH certificate.
@@ -59,6 +61,9 @@ func MakeSSHCert(s SSHCertSpec) *ssh.Certificate {
 		ValidAfter:      s.ValidAfter,
 		ValidBefore:     s.ValidBefore,
 		Permissions:     ssh.Permissions{CriticalOptions: s.CritOpts, Extensions: s.Extensions},
+	}
+	if s.Host {
+		c.CertType = ssh.HostCert
 	}
 	if err := c.SignCert(rand.Reader, SSHSigner(ca)); err != nil {
 		panic(fmt.Sprintf("SignCert: %v", err))
